@@ -21,7 +21,7 @@ import tempfile
 
 import pytz
 
-from vfw import tree
+from vfw import tree, ambient
 from vfw.core import guarded
 
 FMT = '%Y-%m-%d %H:%M:%S'
@@ -120,7 +120,11 @@ def cli(argv):
     closed explicitly by spowtd's own context managers on commit only,
     so connections are short-lived objects freed on return."""
     ui = tree.mod('user_interface')
-    return ui.main([str(a) for a in argv])
+    argv = [str(a) for a in argv]
+    # the verbosity of the case's environment (vfw.ambient): every
+    # sub-command takes -v flags right after its name
+    argv = argv[:1] + ambient.cli_flags() + argv[1:]
+    return ui.main(argv)
 
 
 def cli_load(case, db_path, directory, texts=None):
